@@ -783,6 +783,9 @@ fn main() {
         sp.done(true, "4 kinds x 2 modes x all ordered pairs and triples of 4-10 (issuer, instant / callback) settings on one decoded value");
     }
 
+    //--- (4d) siblings of the checked entry points: wall-clock variants, builder helpers, digest / key helpers -------
+    api_siblings(&ctx, &fx, &perms);
+
     //--- (5) ROA coverage ------------------------------------------------------------------------
     roa_coverage(&ctx, &fx, thorough);
 
@@ -1208,4 +1211,179 @@ fn aspa_space(ctx: &Ctx, fx: &Fx) {
     sp.merge_outcomes(&t.oc.lock().unwrap());
     sp.sample_str(|| "aspa customer=AS64512 issuer holds AS only ee-as=atoms 0b00010000 ee-v4=inherit ee-v6=absent -> rejected (IP resources extension present)".to_string());
     sp.done(true, "5 issuers x 12 customers x (257 AS choices x 3 x 3 IP choices + 255 trimmed AS subsets)");
+}
+
+//------------ API siblings (differential) ---------------------------------------------------------
+
+fn api_siblings(ctx: &Ctx, fx: &Fx, perms: &[[usize; 3]]) {
+    use bcder::{Mode, Oid};
+    use bcder::encode::Values;
+    use rpki::crypto::{DigestAlgorithm, KeyIdentifier, PublicKey, PublicKeyFormat};
+    use rpki::repository::resources::{AsBlock, AsResources, Asn, IpBlock, IpResources};
+    use rpki::repository::sigobj::SignedObjectBuilder;
+    use rpki_verif::engine::signer::sha1;
+
+    //--- wall-clock variants: validate(issuer, strict) == validate_at(issuer, strict, Time::now())
+    let sp = ctx.space("api.wallclock",
+        "Manifest::validate and SignedObject::validate (wall clock) against validate_at(Time::now()) on the same decoded value: 2 kinds x EE certificate windows {2000..2100 current, 2000..2001 expired, 2100..2101 future} x 6 attribute orders x 2 modes x issuer {the CA, another CA}: the two verdicts must be equal; non-trivial = all (both classes occur)");
+    let ta = pki::valid_ta(&fx.s, K_TA, Res::all());
+    let ca2 = pki::valid_ca(&fx.s, &ta, K_TA, K_CA2, Res::all());
+    let windows: [(&str, i64, i64); 3] = [("2000..2100", 946_684_800, 4_102_444_800), ("2000..2001", 946_684_800, 978_307_200), ("2100..2101", 4_102_444_800, 4_133_980_800)];
+    for k in [Kind::Mft, Kind::Gen] { for (wname, nb, na) in windows {
+        let mut spec = Spec::issued(pki::Kind::Ee, K_EE, K_CA, fx.s.ski(K_CA), default_res(k), Overclaim::Refuse);
+        spec.validity = Validity::new(pki::time(nb), pki::time(na));
+        spec.serial = 4000 + k as u128;
+        let cert = pki::build_cert_der(&fx.s, &spec);
+        for o in perms { for strict in [true, false] { for (issuer, iname) in [(&fx.ca, "ca"), (&ca2, "other-ca")] {
+            let mut p = Plan::base(k); p.order = *o;
+            let bytes = assemble(fx, &p, &cert);
+            let r = guard(|| -> Option<(bool, bool)> {
+                let b = Bytes::copy_from_slice(&bytes);
+                Some(match k {
+                    Kind::Mft => { let m = Manifest::decode(b, strict).ok()?; (m.clone().validate(issuer, strict).is_ok(), m.validate_at(issuer, strict, Time::now()).is_ok()) }
+                    _ => { let m = SignedObject::decode(b, strict).ok()?; (m.clone().validate(issuer, strict).is_ok(), m.validate_at(issuer, strict, Time::now()).is_ok()) }
+                })
+            });
+            sp.eval(); sp.nontrivial(1);
+            let w = || format!("{} ee-window={wname} issuer={iname}", p.witness(strict));
+            match r {
+                Err(pn) => fail("C02.no_panic", w(), pn),
+                Ok(None) => fail("C02.api.wallclock", w(), "object built by the independent encoder does not decode"),
+                Ok(Some((wall, at))) => {
+                    sp.outcome(if wall { "accepted" } else { "rejected" });
+                    if wall != at { fail("C02.api.wallclock", w(), format!("validate() accepted={wall}, validate_at(Time::now()) accepted={at}")) }
+                }
+            }
+        }}}
+    }}
+    sp.sample_str(|| "kind=mft ee-window=2000..2001 issuer=ca: validate() and validate_at(now) both reject".to_string());
+    sp.done(true, "2 kinds x 3 windows x 6 orders x 2 modes x 2 issuers");
+
+    //--- SignedObjectBuilder::build_*_resource_blocks == set_*_resources(blocks(...))
+    let sp = ctx.space("api.builder.resources",
+        "SignedObjectBuilder::build_v4/v6/as_resource_blocks(|b| push atoms) against set_*_resources(blocks(atoms)) for every subset of the 8-atom universes (the family's accessor, has_ip_resources); for 8 subsets per family both builders are finalized with the pool signer, encoded, decoded and validated under the CA: same verdict, same validated resources; non-trivial = non-empty subsets");
+    const MAXA: u128 = u32::MAX as u128;
+    let as_atoms: [u128; 8] = [0, 1, 2, 3, 64512, 64513, MAXA - 1, MAXA];
+    let new_builder = || SignedObjectBuilder::new(12345u64.into(), wide_validity(), pki::rsync("rsync://example.net/repo/ca/ca.crl"), pki::rsync("rsync://example.net/repo/ca.cer"), pki::rsync("rsync://example.net/repo/ca/obj.bin"));
+    let ct_oid = { let t = der::oid(&Kind::Gen.ect()); Oid(Bytes::copy_from_slice(&t[2..])) };
+    for fam in 0..3usize { for sub in 0..256u32 {
+        let ranges: Vec<(u128, u128)> = (0..8).filter(|a| sub >> a & 1 == 1).map(|a| match fam { 0 => atom_range(a, false), 1 => atom_range(a, true), _ => (as_atoms[a as usize], as_atoms[a as usize]) }).collect();
+        let (mut a, mut b) = (new_builder(), new_builder());
+        match fam {
+            0 => { a.build_v4_resource_blocks(|bb| for &(lo, hi) in &ranges { bb.push(IpBlock::from((pki::v4_addr(lo), rpki::repository::resources::Addr::from_bits((hi << 96) | ((1u128 << 96) - 1))))) });
+                   b.set_v4_resources(IpResources::blocks(pki::ip_blocks(32, &ranges))); }
+            1 => { a.build_v6_resource_blocks(|bb| for &(lo, hi) in &ranges { bb.push(IpBlock::from((pki::v6_addr(lo), pki::v6_addr(hi)))) });
+                   b.set_v6_resources(IpResources::blocks(pki::ip_blocks(128, &ranges))); }
+            _ => { a.build_as_resource_blocks(|bb| for &(lo, hi) in &ranges { bb.push(AsBlock::from((Asn::from_u32(lo as u32), Asn::from_u32(hi as u32)))) });
+                   b.set_as_resources(AsResources::blocks(pki::as_blocks(&ranges))); }
+        }
+        sp.eval(); if sub != 0 { sp.nontrivial(1) }
+        let w = || format!("family={} atoms={:#010b}", ["v4", "v6", "as"][fam], sub);
+        let same = a.v4_resources() == b.v4_resources() && a.v6_resources() == b.v6_resources() && a.as_resources().to_string() == b.as_resources().to_string() && a.has_ip_resources() == b.has_ip_resources();
+        sp.outcome(if a.has_ip_resources() { "has-ip" } else { "no-ip" });
+        if !same { fail("C02.api.builder.resources", w(), format!("build_*_resource_blocks gives v4={:?} v6={:?} as={}, set_*_resources gives v4={:?} v6={:?} as={}", a.v4_resources(), a.v6_resources(), a.as_resources(), b.v4_resources(), b.v6_resources(), b.as_resources())) }
+        if [0b1, 0b11, 0b101, 0b1000_0000, 0b1111_0000, 0b0101_0101, 0b1111_1110, 255].contains(&sub) {
+            let fin = |bld: SignedObjectBuilder| -> Result<Option<String>, String> {
+                guard(|| {
+                    let obj = bld.finalize(ct_oid.clone(), Bytes::from_static(b"content"), &fx.s, &fx.s.kid(K_CA)).ok()?;
+                    let der = obj.encode_ref().to_captured(Mode::Der).into_bytes();
+                    let dec = SignedObject::decode(der, true).ok()?;
+                    let rc = dec.validate_at(&fx.ca, true, pki::time(T0)).ok()?;
+                    Some(format!("v4={} v6={} as={}", rc.v4_resources().as_v4(), rc.v6_resources().as_v6(), rc.as_resources()))
+                })
+            };
+            let (ra, rb) = (fin(a), fin(b));
+            sp.evals(2);
+            match (&ra, &rb) {
+                (Err(pn), _) | (_, Err(pn)) => fail("C02.no_panic", w(), pn.clone()),
+                (Ok(x), Ok(y)) => {
+                    sp.outcome(if x.is_some() { "finalized-accepted" } else { "finalized-rejected" });
+                    if x != y || x.is_none() { fail("C02.api.builder.resources", w(), format!("finalized objects differ or are not accepted: {x:?} vs {y:?}")) }
+                }
+            }
+        }
+    }}
+    sp.sample_str(|| "family=v4 atoms=0b00000011: both builders hold 0.0.0.0/2".to_string());
+    sp.done(true, "3 families x 256 subsets (accessors) + 3 x 8 finalized pairs");
+
+    //--- digest and key helpers
+    let sp = ctx.space("api.digest_keys",
+        "DigestAlgorithm::{digest_len, is_sha256}, sha1_digest, start_sha1 on contents of 0..=300 octets and {65535, 65536} against the one-shot digests and the independent SHA-1; DigestAlgorithm::{take_opt_from, skip_set} against take_from / take_set_from on 8 encodings; PublicKey::{rsa_from_bits_bytes, rsa_from_components, bits_bytes, encode} on the 8 pool keys and 2 EC keys against decode / encode_ref; KeyIdentifier::{take_opt_from, skip_opt_in} against take_from on 4 encodings x 8 keys; non-trivial = all");
+    let alg = DigestAlgorithm::sha256();
+    let mut lens: Vec<usize> = (0..=300).collect(); lens.extend([65535, 65536]);
+    for n in lens {
+        let data: Vec<u8> = (0..n).map(|i| (i * 13 + 5) as u8).collect();
+        sp.eval(); sp.nontrivial(1);
+        let r = guard(|| {
+            let d = alg.digest(&data);
+            let mut bad = Vec::new();
+            if d.as_ref().len() != alg.digest_len() { bad.push(format!("digest_len()={} but the digest has {} octets", alg.digest_len(), d.as_ref().len())) }
+            if !alg.is_sha256() || d.as_ref() != sha256(&data).as_slice() { bad.push("is_sha256() / digest() disagree with SHA-256".to_string()) }
+            if rpki::crypto::digest::sha1_digest(&data).as_ref() != sha1(&data).as_slice() { bad.push("sha1_digest differs from SHA-1".to_string()) }
+            let mut c = rpki::crypto::digest::start_sha1(); c.update(&data[..n / 2]); c.update(&data[n / 2..]);
+            if c.finish().as_ref() != rpki::crypto::digest::sha1_digest(&data).as_ref() { bad.push("start_sha1 in two steps differs from sha1_digest".to_string()) }
+            bad
+        });
+        match r { Err(pn) => fail("C02.no_panic", format!("digest of {n} octets"), pn), Ok(bad) => { sp.outcome(if n % 2 == 0 { "even-length" } else { "odd-length" }); for b in bad { fail("C02.api.digest", format!("content of {n} octets (octet i = 13 i + 5)"), b) } } }
+    }
+    let encs: Vec<Vec<u8>> = vec![der::alg_sha256(false), der::alg_sha256(true), der::seq(&[der::oid(der::OID_SHA256_WITH_RSA)]), der::seq(&[der::oid(der::OID_SHA256), der::int_u(1)]),
+        der::seq(&[]), der::octets(&[1, 2]), der::null(), Vec::new()];
+    for e in &encs {
+        sp.eval(); sp.nontrivial(1);
+        let one = Mode::Der.decode(e.as_slice(), DigestAlgorithm::take_from).is_ok();
+        let opt = Mode::Der.decode(e.as_slice(), DigestAlgorithm::take_opt_from);
+        let is_seq = e.first() == Some(&0x30);
+        let agree = match &opt { Ok(Some(_)) => one, Ok(None) => !is_seq && !one, Err(_) => is_seq && !one };
+        sp.outcome(match &opt { Ok(Some(_)) => "some", Ok(None) => "none", Err(_) => "error" });
+        if !agree { fail("C02.api.digest", format!("AlgorithmIdentifier {}", hex(e)), format!("take_from ok={one}, take_opt_from={:?}", opt.map(|o| o.is_some()).map_err(|e| e.to_string()))) }
+        let set = der::set_unsorted(&[e.clone()]);
+        let t = Mode::Der.decode(set.as_slice(), DigestAlgorithm::take_set_from).is_ok();
+        let k = Mode::Der.decode(set.as_slice(), DigestAlgorithm::skip_set).is_ok();
+        // a set whose only member is not a SEQUENCE is left unread by skip_set's loop; the members it does read must be judged alike
+        if is_seq && t != k { fail("C02.api.digest", format!("SET {{ {} }}", hex(e)), format!("take_set_from ok={t}, skip_set ok={k}")) }
+    }
+    for i in 0..10usize {
+        sp.eval(); sp.nontrivial(1);
+        let (pk, spki): (PublicKey, Vec<u8>) = if i < 8 { (fx.s.public(i), fx.s.key(i).spki_der.clone()) } else {
+            let pk = rpki_verif::engine::signer::ec_public(i - 8); let d = pk.encode_ref().to_captured(Mode::Der).into_bytes().to_vec(); (pk, d) };
+        let w = || format!("pool key {i}");
+        let r = guard(|| {
+            let mut bad = Vec::new();
+            if pk.bits_bytes().as_ref() != pk.bits() { bad.push("bits_bytes() != bits()".to_string()) }
+            if pk.clone().encode().to_captured(Mode::Der).as_slice() != spki.as_slice() || pk.encode_ref().to_captured(Mode::Der).as_slice() != spki.as_slice() { bad.push("encode() / encode_ref() differ from the SubjectPublicKeyInfo the key was decoded from".to_string()) }
+            if PublicKey::decode(spki.as_slice()).ok().as_ref() != Some(&pk) { bad.push("decode(encode()) != key".to_string()) }
+            if pk.algorithm() == PublicKeyFormat::Rsa {
+                if PublicKey::rsa_from_bits_bytes(pk.bits_bytes()).ok().as_ref() != Some(&pk) { bad.push("rsa_from_bits_bytes(bits_bytes()) != key".to_string()) }
+                // modulus and exponent read with the independent TLV reader
+                let node = der::parse_one(&spki, false).unwrap();
+                let bits = &node.children[1].content(&spki)[1..];
+                let rsa = der::parse_one(bits, false).unwrap();
+                let strip = |b: &[u8]| -> Vec<u8> { let mut i = 0; while i + 1 < b.len() && b[i] == 0 { i += 1 } b[i..].to_vec() };
+                let (n, e) = (strip(rsa.children[0].content(bits)), strip(rsa.children[1].content(bits)));
+                if PublicKey::rsa_from_components(&n, &e).ok().as_ref() != Some(&pk) { bad.push("rsa_from_components(n, e) != key".to_string()) }
+                if pk.key_identifier() != fx.s.ski(i) { bad.push("key_identifier() != SHA-1 of the key bits".to_string()) }
+            }
+            bad
+        });
+        match r { Err(pn) => fail("C02.no_panic", w(), pn), Ok(bad) => { sp.outcome(if i < 8 { "rsa" } else { "ec" }); for b in bad { fail("C02.api.keys", w(), b) } } }
+        if i < 8 {
+            let ski = fx.s.key(i).ski.to_vec();
+            for enc in [der::octets(&ski), der::octets(&ski[..19]), der::int_u(5), Vec::new()] {
+                sp.eval();
+                let one = Mode::Der.decode(enc.as_slice(), KeyIdentifier::take_from).ok();
+                let opt = Mode::Der.decode(enc.as_slice(), KeyIdentifier::take_opt_from);
+                let skip = Mode::Der.decode(enc.as_slice(), KeyIdentifier::skip_opt_in);
+                let is_os = enc.first() == Some(&0x04);
+                let agree = match (&opt, &skip) {
+                    (Ok(Some(k)), Ok(Some(()))) => one == Some(*k) && *k == fx.s.ski(i),
+                    (Ok(None), Ok(None)) => !is_os && one.is_none(),
+                    (Err(_), Err(_)) => is_os && one.is_none(),
+                    _ => false,
+                };
+                if !agree { fail("C02.api.keys", format!("KeyIdentifier encoding {} (pool key {i})", hex(&enc)), format!("take_from={:?} take_opt_from={:?} skip_opt_in={:?}", one, opt.map_err(|e| e.to_string()), skip.map_err(|e| e.to_string()))) }
+            }
+        }
+    }
+    sp.sample_str(|| "pool key 0: rsa_from_components(n, e), rsa_from_bits_bytes(bits_bytes()), decode(encode()) all equal the key".to_string());
+    sp.done(true, "303 contents; 8 algorithm-identifier encodings; 10 keys; 4 key-identifier encodings x 8 keys");
 }
